@@ -382,3 +382,58 @@ def find_calls(fn, pred):
 
 def callee_name(t):
     return t["r"] if (t["r"] and t["rk"] in ("item", "closure_once")) else (t["f"] or "")
+
+
+def return_table(P, fn):
+    """decision table of a bool/small function: for every whole assignment to the return place,
+    [(value description, facts holding there, block, line)].
+    value: ('const', v) | ('cmp', op, a_tags, b_tags) | ('call', short callee, [arg tags]) | ('other', tags)"""
+    cx = FlowCx(P, fn)
+    out = []
+    for bi, b in enumerate(fn.blocks):
+        if b["cl"]:
+            continue
+        for st in b["s"]:
+            pl, rv, ln = st
+            if pl != [0] or rv[0] == "dead":
+                continue
+            out.append((_value_desc(cx, rv), cx.facts_at(bi), bi, ln))
+        t = b["t"]
+        if t["k"] == "call" and t["dst"] == [0]:
+            out.append((_value_desc(cx, ["call", t]), cx.facts_at(bi), bi, t["line"]))
+    return out
+
+
+def _value_desc(cx, rv):
+    k = rv[0]
+    if k == "use":
+        op = rv[1]
+        if op[0] == "k":
+            return ("const", str(op[1]))
+        pl = op[1]
+        if len(pl) == 1:
+            ds = [d for d in cx.fn.defs().get(pl[0], []) if len(d[2]) == 1]
+            if len(ds) == 1:
+                return _value_desc(cx, ds[0][3])
+            if len(ds) > 1:
+                return ("multi", [_value_desc(cx, d[3]) for d in ds])
+        return ("other", cx.tags(op))
+    if k == "bin" and rv[1] in _FLIP:
+        return ("cmp", rv[1], cx.tags(rv[2]), cx.tags(rv[3]))
+    if k == "un" and rv[1] == "Not":
+        v = _value_desc(cx, ["use", rv[2]])
+        if v[0] == "cmp":
+            return ("cmp", _NEG[v[1]], v[2], v[3])
+        return ("not", v)
+    if k == "call":
+        t = rv[1]
+        nm = _short_callee(t)
+        last = nm.split("::")[-1]
+        args = [cx.tags(a) for a in t["args"]]
+        cmpmap = {"eq": "Eq", "ne": "Ne", "lt": "Lt", "le": "Le", "gt": "Gt", "ge": "Ge"}
+        if last in cmpmap and len(args) == 2:
+            return ("cmp", cmpmap[last], args[0], args[1])
+        return ("call", nm, args)
+    if k == "cast":
+        return _value_desc(cx, ["use", rv[2]])
+    return ("other", set())
